@@ -51,6 +51,11 @@ def streams(tier, seed):
             e["attrs"] = {"experiment_type": "'integrals'"}
             for idx in range(-shape[0], shape[0]):
                 out.append([e, op_simple("calculate_enhancement", e, idx=idx)])
+        # reference integrals for which x * (1/x) does not round to 1 (49, 98, -24.5, 3, 0.1 …): the reference entry is x / x
+        e = {"op": "new", "id": 0, "dims": ["Power", "k"], "shape": [5, 2], "coords": [["0", "1", "2", "3", "4"], ["0", "1"]],
+             "values": ["49", "98", "-49/2", "3", "1/10", "7", "41", "-13", "1/3", "1000003"], "attrs": {"experiment_type": "'integrals'"}}
+        for idx in range(5):
+            out.append([e, op_simple("calculate_enhancement", e, idx=idx)])
     return out
 
 
